@@ -16,6 +16,7 @@
 #include <unifex/inplace_stop_token.hpp>
 
 #include <unifex/spin_wait.hpp>
+#include <unifex/detail/verif_hooks.hpp>
 
 #if UNIFEX_LOG_DANGLING_STOP_CALLBACKS
 #  include <stdio.h>
@@ -42,6 +43,7 @@ bool inplace_stop_source::request_stop() noexcept {
   }
 
   notifyingThreadId_ = std::this_thread::get_id();
+  UNIFEX_VERIF_YIELD("stop.q1");
 
   // We are responsible for executing callbacks.
   while (callbacks_ != nullptr) {
@@ -57,15 +59,19 @@ bool inplace_stop_source::request_stop() noexcept {
 
     bool removedDuringCallback = false;
     callback->removedDuringCallback_ = &removedDuringCallback;
+    UNIFEX_VERIF_YIELD("stop.q2");
 
     callback->execute();
+    UNIFEX_VERIF_YIELD("stop.q3");
 
     if (!removedDuringCallback) {
       callback->removedDuringCallback_ = nullptr;
       callback->callbackCompleted_.store(true, std::memory_order_release);
     }
 
+    UNIFEX_VERIF_YIELD("stop.q4");
     lock();
+    UNIFEX_VERIF_YIELD("stop.q1");
   }
 
   // unlock()
@@ -154,6 +160,7 @@ void inplace_stop_source::remove_callback(
   } else {
     auto notifyingThreadId = notifyingThreadId_;
     unlock(oldState);
+    UNIFEX_VERIF_YIELD("stop.d12");
 
     // Callback has either already been executed or is
     // currently executing on another thread.
